@@ -206,6 +206,9 @@ def selftest(ctx):
 
 
 def run(ctx):
+    from spverif.ref import enums as _enums
+    if ctx.shard[0] == 0:
+        _enums.check(ctx, "code_tables", ['spacepackets.ccsds.time'])
     from spverif.san import scribble
     scribble.install()
     r = ctx.rng
